@@ -119,7 +119,7 @@ pub enum K {
     NextR { it: usize, item: Option<(u32, u64, ActId)> },
     Snap { tag: u32, blocked: Vec<(usize, BlockOn)> },
     // seam events
-    Spawn { tid: usize, name: Option<String> },
+    Spawn { tid: usize, parent: usize, name: Option<String> },
     SpawnFail { name: Option<String> },
     Exit { tid: usize, panicked: bool },
     ChanNew { chan: u32, cap: Option<usize> },
@@ -154,7 +154,7 @@ impl Hist {
         Arc::new(move |e: &simrt::SeamEvent, t: u64| {
             use simrt::SeamEvent as S;
             let (tid, k) = match e {
-                S::Spawn { tid, name, .. } => (*tid, K::Spawn { tid: *tid, name: name.clone() }),
+                S::Spawn { tid, name, parent } => (*tid, K::Spawn { tid: *tid, parent: *parent, name: name.clone() }),
                 S::SpawnFailed { parent, name } => (*parent, K::SpawnFail { name: name.clone() }),
                 S::Exit { tid, panicked } => (*tid, K::Exit { tid: *tid, panicked: *panicked }),
                 S::ChanCreate { chan, cap, tid } => (*tid, K::ChanNew { chan: *chan, cap: *cap }),
